@@ -17,11 +17,12 @@ import numpy as np
 
 from .. import core, comps, plants, result_common as R, elec_common as E, mech_common as M
 from ..core import enc, dec
-from feems.components_model.component_electric import ElectricComponent, ElectricMachine
+from feems.components_model.component_electric import ElectricComponent, ElectricMachine, Genset
+from feems.components_model.component_mechanical import MechanicalPropulsionComponent
 from feems.components_model.utility import get_efficiency_curve_from_points, IntegrationMethod
 from feems.fuel import Fuel, FuelSpecifiedBy, TypeFuel, FuelOrigin, GhgEmissionFactorTankToWake
 from feems.system_model import ElectricPowerSystem, MechanicalPropulsionSystem, HybridPropulsionSystem
-from feems.types_for_feems import TypeComponent, TypePower, Power_kW, SwbId
+from feems.types_for_feems import TypeComponent, TypePower, Power_kW, Speed_rpm, SwbId
 
 THEOREMS = ["rejects", "accepts_iff", "family_witnesses", "names_per_category", "monotone_examples", "denominators_nonzero",
             "lhv_positive", "fraction_defined"]
@@ -47,6 +48,9 @@ def abstract(case):
             mech.append({"name": c["name"], "node": int(ref.get("shaft_line", 1)), "cat": "pti_pto", "kind_ok": True, "rated": enc(ref["rated"])})
         else:
             mech.append({"name": c["name"], "node": int(c["shaft_line"]), "cat": CAT[c["kind"]], "kind_ok": True, "rated": enc(c["rated"])})
+    if mut.get("extra_mech"):
+        x = mut["extra_mech"]
+        mech.append({"name": x["name"], "node": int(x["shaft_line"]), "cat": "source", "kind_ok": False, "rated": enc(x["rated"])})
     e_pti = [i for i, c in enumerate(spec.get("electric", [])) if c["kind"] == "pti_pto"]
     m_pti = list(e_pti)
     if mut.get("family") == "pti-mismatch":
@@ -113,10 +117,33 @@ def mutate(rng, base, family):
     elif family == "wrong-kind":
         if not el:
             return None
-        srcs = [c for c in el if c["kind"] == "generator"]
-        if not srcs:
+        # which component is of the wrong kind for its role, and how (the last four were accepted before D102 / D103 / D128 / D130)
+        hows = []
+        if any(c["kind"] == "generator" for c in el):
+            hows += ["plain-component-as-source", "load-label-on-source"]
+        if any(c["kind"] == "other_load" for c in el):
+            hows += ["source-label-on-consumer"]
+        if any(c["kind"] == "genset" for c in el):
+            hows += ["genset-with-consumer-generator"]
+        if any(c["kind"] == "main_engine" for c in spec.get("mechanical", [])):
+            hows += ["main-engine-label-on-another-class"]
+        if not hows:
             return None
-        mut["wrong_kind"] = [srcs[0]["name"]]
+        how = str(rng.choice(hows))
+        mut["how"] = how
+        core.axis("wrong_kind", how)
+        if how in ("plain-component-as-source", "load-label-on-source"):
+            mut["wrong_kind"] = [next(c["name"] for c in el if c["kind"] == "generator")]
+        elif how == "source-label-on-consumer":
+            mut["wrong_kind"] = [next(c["name"] for c in el if c["kind"] == "other_load")]
+            mut["label"] = str(rng.choice(["GENERATOR", "SHORE_POWER"]))
+        elif how == "genset-with-consumer-generator":
+            mut["wrong_kind"] = [next(c["name"] for c in el if c["kind"] == "genset")]
+            mut["generator_power_type"] = str(rng.choice(["POWER_CONSUMER", "PTI_PTO"]))
+        else:
+            me = next(c for c in spec["mechanical"] if c["kind"] == "main_engine")
+            mut["extra_mech"] = {"name": "second main engine", "shaft_line": me["shaft_line"], "rated": me["rated"],
+                                 "label": str(rng.choice(["MAIN_ENGINE", "MAIN_ENGINE_WITH_GEARBOX"])), "power_type": str(rng.choice(["ENERGY_STORAGE", "NONE"]))}
     elif family == "pti-mismatch":
         if spec.get("type") != "hybrid":
             return None
@@ -196,8 +223,22 @@ def attempt(case):
         ecomps = []
         for c in spec.get("electric", []):
             if c["name"] in mut.get("wrong_kind", []):
-                obj = ElectricComponent(type_=TypeComponent.GENERATOR, name=c["name"], rated_power=Power_kW(c["rated"]),
-                                        eff_curve=comps.curve_array(c["curve"]), power_type=TypePower.POWER_SOURCE, switchboard_id=SwbId(c["swb"]))
+                how = mut.get("how", "plain-component-as-source")
+                if how == "plain-component-as-source":
+                    obj = ElectricComponent(type_=TypeComponent.GENERATOR, name=c["name"], rated_power=Power_kW(c["rated"]),
+                                            eff_curve=comps.curve_array(c["curve"]), power_type=TypePower.POWER_SOURCE, switchboard_id=SwbId(c["swb"]))
+                elif how == "load-label-on-source":
+                    obj = ElectricMachine(type_=TypeComponent.OTHER_LOAD, name=c["name"], rated_power=Power_kW(c["rated"]), rated_speed=Speed_rpm(1000.0),
+                                          eff_curve=comps.curve_array(c["curve"]), power_type=TypePower.POWER_SOURCE, switchboard_id=SwbId(c["swb"]))
+                elif how == "source-label-on-consumer":
+                    obj = ElectricComponent(type_=TypeComponent[mut["label"]], name=c["name"], rated_power=Power_kW(c["rated"]),
+                                            eff_curve=comps.curve_array(c["curve"]), power_type=TypePower.POWER_CONSUMER, switchboard_id=SwbId(c["swb"]))
+                else:       # a generating set whose generator is declared a consumer / PTI/PTO
+                    gen = c["generator"]
+                    machine = ElectricMachine(type_=TypeComponent.GENERATOR, name=c["name"] + " generator", rated_power=Power_kW(gen["rated"]),
+                                              rated_speed=Speed_rpm(gen.get("speed", 1000.0)), eff_curve=comps.curve_array(gen["curve"]),
+                                              power_type=TypePower[mut["generator_power_type"]], switchboard_id=SwbId(c["swb"]))
+                    obj = Genset(c["name"], plants.build_engine(c["engine"]), machine)
             else:
                 obj = plants.build_electric_component(c)
             if fam == "bad-id" and mut.get("numpy_id") and c["swb"] <= 0:
@@ -225,6 +266,10 @@ def attempt(case):
                 obj = plants.build_mechanical_component(c)
             plant.by_name.setdefault(c["name"], obj)
             mcomps.append(obj)
+        if mut.get("extra_mech") and mcomps:
+            x = mut["extra_mech"]
+            mcomps.append(MechanicalPropulsionComponent(TypeComponent[x["label"]], TypePower[x["power_type"]], x["name"], Power_kW(x["rated"]),
+                                                        np.array([1.0]), Speed_rpm(150.0), shaft_line_id=x["shaft_line"]))
         plant.mechanical = MechanicalPropulsionSystem("m", mcomps) if mcomps else None
         t = spec.get("type", "electric")
         plant.system = {"electric": plant.electric, "mechanical": plant.mechanical}.get(t)
